@@ -429,7 +429,7 @@ static void h_op(void)
     char *rf; int st;
     if (!A) { h_out("bad-op"); return; }
     rf = malloc((size_t) A->alen + 1); memset(rf, '?', (size_t) A->alen); rf[A->alen] = 0;
-    st = esl_msa_ReasonableRF(A, h_argbits("symfrac"), FALSE, rf);
+    st = esl_msa_ReasonableRF(A, h_argbits("symfrac"), h_argi("cons", 0) == 1 ? TRUE : FALSE, rf);
     out_ss(st == eslOK ? eslOK : st, rf); free(rf);
 
   /* ---------------- WUSS ---------------- */
